@@ -6,6 +6,7 @@
  *        1 GO go_into_object   2 GA go_into_array   3 N next   4 LO leave_object   5 LA leave_array
  *        6 RAW get_raw         7 F field_with_length (symbolic name, <= 2 bytes)
  *        8 TW parser_to_writer 9 FS field(strlen variant)  10 FE field_ensure_with_length
+ *       14 GN get_name (raises STATE where no name is available)
  *       11 NE next_ensure     12 RS binson_parser_reset   13 VF binson_parser_verify (both restart the reference cursor)
  *   -DMODE= 1 REF : valid documents (assume ref_verify == OK); an op that is not protocol-following
  *                   for this document per the reference cursor ends the script
@@ -26,7 +27,9 @@
 #ifndef WCAP
 #define WCAP (NB + 2)
 #endif
+#ifndef FNAMEMAX
 #define FNAMEMAX 2
+#endif
 
 /* PROPSET 12 (C12: a reused parser behaves like a fresh one) uses the navigation checks of C06 after a reset/verify */
 #define P(k) (PROPSET == (k) || (PROPSET == 12 && (k) == 6))
@@ -392,7 +395,8 @@ void harness(void)
             bool r;
             if (op == 9) {
                 nm[FNAMEMAX] = 0;
-                nl = nm[0] == 0 ? 0 : (nm[1] == 0 ? 1 : 2);
+                nl = 0;
+                for (unsigned i = 0; i < FNAMEMAX; i++) { if (nm[i] == 0) break; nl++; }
                 r = binson_parser_field(&p, nm);
             } else if (op == 10) {
                 ASSUME(nl <= FNAMEMAX);
@@ -422,6 +426,13 @@ void harness(void)
                 if (rr && !want) goto script_end;
             }
 #endif
+            break;
+        }
+        case 14: {
+            /* get_name: a getter, but one that may raise STATE (no name at this position); used by the latch family */
+            bbuf *nmq = binson_parser_get_name(&p);
+            op_r = false;
+            (void) nmq;
             break;
         }
         case 12: case 13: {
